@@ -6,41 +6,61 @@
 -/
 import Model.Proto.Sub
 import Model.Proto.Pub
+import Model.Proto.Pair
+import Model.Proto.Push
+import Model.Proto.Pull
 open Model Model.Proto
 namespace Driver.Machines
 
+/-- the set of model states compatible with what has been observed so far (the model is
+    non-deterministic where Go's `select` is); capped to keep runs linear -/
+structure Cands (σ : Type) where
+  states : List σ
+
+def advance {σ : Type} [BEq σ] (cs : List σ) (stp : σ → List String → List (σ × List Ev)) (op : List String) (o : String) :
+    List σ × String :=
+  let outs := cs.flatMap (fun s => stp s op)
+  let ok := (outs.filter (fun x => obs x.2 == o)).map (·.1)
+  let dedup := ok.foldl (fun acc s => if acc.contains s then acc else acc ++ [s]) []
+  let rendered := (outs.map (fun x => obs x.2)).foldl (fun acc s => if acc.contains s then acc else acc ++ [s]) []
+  (dedup.take 64, if outs.isEmpty then "<operation not enabled in the model>" else " | ".intercalate rendered)
+
 structure State where
-  sub : Sub.State := Sub.init
-  pub : Pub.State := Pub.init
+  sub : List Sub.State := [Sub.init]
+  pub : List Pub.State := [Pub.init]
+  pair : List Pair.State := [Pair.init]
+  push : List Push.State := [Push.init]
+  pull : List Pull.State := [Pull.init]
   stuck : Bool := false      -- after a disagreement the scenario is abandoned until the next `new`
 
-/-- pick the allowed outcome that matches the observation -/
-def pick {σ : Type} (outs : List (σ × List Ev)) (o : String) : Option σ :=
-  (outs.find? (fun x => obs x.2 == o)).map (·.1)
-
-def render {σ : Type} (outs : List (σ × List Ev)) : String :=
-  if outs.isEmpty then "<operation not enabled in the model>" else " | ".intercalate (outs.map (fun x => obs x.2))
-
 /-- returns (new state, agrees?, expected rendering, branch) or none for an unknown tag -/
-def step (s : State) (tag : String) (args : List String) (obs : String) : Option (State × Bool × String × String) :=
+def step (s : State) (tag : String) (args : List String) (o : String) : Option (State × Bool × String × String) :=
   let opName := args.headD ""
   if opName == "new" then
     match tag with
-    | "m.sub" => some ({ s with sub := Sub.init, stuck := false }, true, "-", "new")
-    | "m.pub" => some ({ s with pub := Pub.init, stuck := false }, true, "-", "new")
+    | "m.sub" => some ({ s with sub := [Sub.init], stuck := false }, true, "-", "new")
+    | "m.pub" => some ({ s with pub := [Pub.init], stuck := false }, true, "-", "new")
+    | "m.pair" => some ({ s with pair := [Pair.init], stuck := false }, true, "-", "new")
+    | "m.push" => some ({ s with push := [Push.init], stuck := false }, true, "-", "new")
+    | "m.pull" => some ({ s with pull := [Pull.init], stuck := false }, true, "-", "new")
     | _ => none
   else if s.stuck then some (s, true, "(skipped after earlier disagreement)", "skipped") else
   match tag with
   | "m.sub" =>
-    let outs := Sub.step s.sub args
-    match pick outs obs with
-    | some s' => some ({ s with sub := s' }, true, obs, opName)
-    | none => some ({ s with stuck := true }, false, render outs, opName)
+    let (cs, exp) := advance s.sub Sub.step args o
+    if cs.isEmpty then some ({ s with stuck := true }, false, exp, opName) else some ({ s with sub := cs }, true, o, opName)
   | "m.pub" =>
-    let outs := Pub.step s.pub args
-    match pick outs obs with
-    | some s' => some ({ s with pub := s' }, true, obs, opName)
-    | none => some ({ s with stuck := true }, false, render outs, opName)
+    let (cs, exp) := advance s.pub Pub.step args o
+    if cs.isEmpty then some ({ s with stuck := true }, false, exp, opName) else some ({ s with pub := cs }, true, o, opName)
+  | "m.pair" =>
+    let (cs, exp) := advance s.pair Pair.step args o
+    if cs.isEmpty then some ({ s with stuck := true }, false, exp, opName) else some ({ s with pair := cs }, true, o, opName)
+  | "m.push" =>
+    let (cs, exp) := advance s.push Push.step args o
+    if cs.isEmpty then some ({ s with stuck := true }, false, exp, opName) else some ({ s with push := cs }, true, o, opName)
+  | "m.pull" =>
+    let (cs, exp) := advance s.pull Pull.step args o
+    if cs.isEmpty then some ({ s with stuck := true }, false, exp, opName) else some ({ s with pull := cs }, true, o, opName)
   | _ => none
 
 end Driver.Machines
